@@ -24,12 +24,16 @@ type histState struct {
 	expired  bool
 	cap      int
 	open     map[uint32]bool
+	broken   map[uint32]bool // in the table but already closed underneath (a connection dropped; not yet reaped)
 }
 
 func (h histState) key() string {
 	var s []string
 	for k := range h.open {
 		s = append(s, fmt.Sprint(k))
+	}
+	for k := range h.broken {
+		s = append(s, fmt.Sprint(k)+"x")
 	}
 	sort.Strings(s)
 	return fmt.Sprintf("up=%d down=%d expired=%v cap=%d open=%s", h.up, h.down, h.expired, h.cap, strings.Join(s, ","))
@@ -41,6 +45,10 @@ func (h histState) clone() histState {
 	for k := range h.open {
 		n.open[k] = true
 	}
+	n.broken = map[uint32]bool{}
+	for k := range h.broken {
+		n.broken[k] = true
+	}
 	return n
 }
 
@@ -49,7 +57,7 @@ func init() {
 		rep := &vx.Report{Job: c.Job, Engine: "bfs", Outcomes: map[string]int64{}, Exhaustive: true}
 		depth := c.PI("depth", 6)
 		now := rtime.Now().Unix()
-		ops := []string{"connect1", "connect2", "connect3", "close1", "close2", "close3", "up=0", "up=-5", "up=100", "down=0", "down=100", "expire", "renew", "cap=1", "cap=2", "cap=0", "round"}
+		ops := []string{"connect1", "connect2", "connect3", "close1", "close2", "close3", "up=0", "up=-5", "up=100", "down=0", "down=100", "expire", "renew", "cap=1", "cap=2", "cap=0", "round", "break1"}
 		uid := uidOf(0)
 		type inst struct {
 			mgr   usermanager.UserManager
@@ -62,7 +70,7 @@ func init() {
 			in := &inst{mgr: m, close: func() { m.Close() }, sesh: map[uint32]*mux.Session{}}
 			m.WriteUserInfo(usermanager.UserInfo{UID: uid, SessionsCap: i32(2), UpRate: i64(1 << 30), DownRate: i64(1 << 30), UpCredit: i64(100), DownCredit: i64(100), ExpiryTime: i64(now + 86400)})
 			in.panel = &userPanel{Manager: m, activeUsers: map[[16]byte]*ActiveUser{}, usageUpdateQueue: map[[16]byte]*usagePair{}}
-			ref := histState{up: 100, down: 100, cap: 2, open: map[uint32]bool{}}
+			ref := histState{up: 100, down: 100, cap: 2, open: map[uint32]bool{}, broken: map[uint32]bool{}}
 			for i, op := range hist {
 				last := i == len(hist)-1
 				var n int
@@ -79,6 +87,19 @@ func init() {
 						}
 					}
 					admitted := err == nil
+					if ref.open[sid] && ref.broken[sid] {
+						// the entry is a session that a dropped connection has already closed: the server may hand
+						// it out as it is or replace it - but a user that must be refused gets no live session
+						revoked := ref.up <= 0 || ref.down <= 0 || ref.expired
+						if revoked && admitted && sesh != nil && !sesh.IsClosed() && last {
+							return in, fmt.Sprintf("connection for session %d, which a dropped connection had closed, while the user must be refused [%s]: a new live session was started", sid, ref.key())
+						}
+						if admitted && sesh != nil && !sesh.IsClosed() {
+							delete(ref.broken, sid)
+							in.sesh[sid] = sesh
+						}
+						continue
+					}
 					want := ref.open[sid] || (ref.up > 0 && ref.down > 0 && !ref.expired && len(ref.open) < ref.cap)
 					if admitted != want && last {
 						return in, fmt.Sprintf("connection for session %d: admitted=%v (err %v), but state is [%s] so it should be %v", sid, admitted, err, ref.key(), want)
@@ -90,6 +111,13 @@ func init() {
 						in.sesh[sid] = sesh
 						ref.open[sid] = true
 					}
+				case strings.HasPrefix(op, "break"):
+					fmt.Sscanf(op, "break%d", &n)
+					sid := uint32(n)
+					if sesh := in.sesh[sid]; sesh != nil && ref.open[sid] {
+						sesh.Close() // the peer hung up: the session is closed underneath, its table entry remains
+						ref.broken[sid] = true
+					}
 				case strings.HasPrefix(op, "close"):
 					fmt.Sscanf(op, "close%d", &n)
 					sid := uint32(n)
@@ -98,6 +126,7 @@ func init() {
 					}
 					delete(in.sesh, sid)
 					delete(ref.open, sid)
+					delete(ref.broken, sid)
 				case strings.HasPrefix(op, "up="):
 					fmt.Sscanf(op, "up=%d", &n)
 					m.WriteUserInfo(usermanager.UserInfo{UID: uid, UpCredit: i64(int64(n))})
@@ -123,6 +152,7 @@ func init() {
 					in.panel.commitUpdate()
 					if len(ref.open) > 0 && (ref.up <= 0 || ref.down <= 0 || ref.expired) {
 						ref.open = map[uint32]bool{}
+						ref.broken = map[uint32]bool{}
 						in.sesh = map[uint32]*mux.Session{}
 					}
 				}
@@ -136,8 +166,8 @@ func init() {
 							}
 						}
 					}
-					if live != len(ref.open) {
-						return in, fmt.Sprintf("%d live sessions in the panel, the history implies %d", live, len(ref.open))
+					if live != len(ref.open)-len(ref.broken) {
+						return in, fmt.Sprintf("%d live sessions in the panel, the history implies %d", live, len(ref.open)-len(ref.broken))
 					}
 				}
 			}
@@ -146,7 +176,7 @@ func init() {
 			return in, ""
 		}
 		refAfter := func(hist []string) histState {
-			ref := histState{up: 100, down: 100, cap: 2, open: map[uint32]bool{}}
+			ref := histState{up: 100, down: 100, cap: 2, open: map[uint32]bool{}, broken: map[uint32]bool{}}
 			for _, op := range hist {
 				var n int
 				switch {
@@ -155,9 +185,15 @@ func init() {
 					if ref.open[uint32(n)] || (ref.up > 0 && ref.down > 0 && !ref.expired && len(ref.open) < ref.cap) {
 						ref.open[uint32(n)] = true
 					}
+				case strings.HasPrefix(op, "break"):
+					fmt.Sscanf(op, "break%d", &n)
+					if ref.open[uint32(n)] {
+						ref.broken[uint32(n)] = true
+					}
 				case strings.HasPrefix(op, "close"):
 					fmt.Sscanf(op, "close%d", &n)
 					delete(ref.open, uint32(n))
+					delete(ref.broken, uint32(n))
 				case strings.HasPrefix(op, "up="):
 					fmt.Sscanf(op, "up=%d", &n)
 					ref.up = int64(n)
@@ -174,6 +210,7 @@ func init() {
 				case op == "round":
 					if len(ref.open) > 0 && (ref.up <= 0 || ref.down <= 0 || ref.expired) {
 						ref.open = map[uint32]bool{}
+						ref.broken = map[uint32]bool{}
 					}
 				}
 			}
